@@ -165,7 +165,19 @@ NeverRejects == status # "err"
 RoundTrip == phase = "done" => /\ Emit(quirk) = FileEvents
                                /\ RawLenConsistent(quirk)
 
-RInv == TypeOK /\ ColumnsAligned /\ RowsMirrorHistory /\ NeverRejects /\ RoundTrip
+\* every reachable state maps into the inductive invariant of the length abstraction
+\* (spec/apalache/SlpParserLens.tla, discharged by Apalache for unbounded histories)
+LensInv ==
+    LET n == NRows
+        isOpen == status # "done" /\ ClosedRows < n
+    IN /\ V22 => Len(fstart) = n
+       /\ ~isOpen => (\A c \in Chars : Len(pre[c]) = n /\ Len(post[c]) = n) /\ (V30 => Len(fend) = n)
+       /\ isOpen => /\ n >= 1
+                    /\ V30 => Len(fend) = n - 1
+                    /\ \A c \in Chars : /\ Len(pre[c]) \in {n - 1, n} /\ Len(post[c]) \in {n - 1, n}
+                                        /\ Len(post[c]) <= Len(pre[c])
+
+RInv == TypeOK /\ ColumnsAligned /\ RowsMirrorHistory /\ NeverRejects /\ RoundTrip /\ LensInv
 
 (***************************************************************************)
 (* Action properties (C12, C13): rows never disappear, closed rows never    *)
